@@ -91,11 +91,12 @@ func (p *Parser) parseNext() error {
 func (p *Parser) parseOperator() error {
 	start := p.pos
 
-	// Read operator name (letters and possibly quotes for special operators)
+	// Read operator name (letters and possibly quotes for special operators;
+	// digits after the first character, as in d0 and d1)
 	var op bytes.Buffer
 	for p.pos < len(p.data) {
 		c := p.data[p.pos]
-		if isLetter(c) || c == '\'' || c == '"' || c == '*' {
+		if isLetter(c) || c == '\'' || c == '"' || c == '*' || (op.Len() > 0 && c >= '0' && c <= '9') {
 			op.WriteByte(c)
 			p.pos++
 		} else {
